@@ -348,6 +348,95 @@ func runC02(r *Run) {
 				}
 			}
 		}
+		// the same table as a boolean helper: `if !c.hasRequiredData() { return false }`, the helper being a switch on the
+		// id whose arms answer `len(c.Data) > k` / `>= k` (or true)
+		for _, br := range branchesInOne(ck) {
+			call, ok := stripValue(br.Info.Root).(*ssa.Call)
+			if !ok || br.Info.Op != token.ILLEGAL {
+				continue
+			}
+			g := transparentCallee(ck, call)
+			if g == nil || g.Signature.Results().Len() != 1 {
+				continue
+			}
+			if bt, ok := g.Signature.Results().At(0).Type().Underlying().(*types.Basic); !ok || bt.Kind() != types.Bool {
+				continue
+			}
+			rejSlot, ok := br.truthSlot(false)
+			if !ok {
+				continue
+			}
+			tb := br.If.Block().Succs[rejSlot]
+			if len(tb.Instrs) == 0 {
+				continue
+			}
+			if isRet, isC, v := retConstBool(tb.Instrs[len(tb.Instrs)-1]); !isRet || !isC || v {
+				continue
+			}
+			idParam := map[ssa.Value]bool{}
+			for i, a := range call.Call.Args {
+				if idLoad(stripValue(a)) && i < len(g.Params) {
+					idParam[g.Params[i]] = true
+				}
+			}
+			for id := range ids {
+				cut := map[edge]bool{}
+				for _, gb := range branchesInOne(g) {
+					if gb.Info.Op != token.EQL || gb.Info.Const == nil || !(idLoad(gb.Info.Root) || idParam[stripValue(gb.Info.Root)]) {
+						continue
+					}
+					k, ok := constInt(gb.Info.Const)
+					if !ok {
+						continue
+					}
+					if k == id {
+						cut[edge{gb.If.Block(), gb.slotWhenRel(false)}] = true
+					} else {
+						cut[edge{gb.If.Block(), gb.slotWhenRel(true)}] = true
+					}
+				}
+				need, decided, any := int64(1<<30), true, false
+				for b := range blocksReachable(g.Blocks[0], cut, nil) {
+					ret, isRet := b.Instrs[len(b.Instrs)-1].(*ssa.Return)
+					if !isRet {
+						continue
+					}
+					any = true
+					v := retOperand(ret, 0)
+					n := int64(-1)
+					if cb, isB := constBool(asConst(v)); isB {
+						if cb {
+							n = 0
+						} else {
+							continue // answers false for this id: rejected whatever the data
+						}
+					} else {
+						ci := decompose(v)
+						k, isK := constInt(ci.Const)
+						if isK && lenOfField(ci.Root, "Constraint.Data") && !ci.Neg {
+							switch ci.Op {
+							case token.GTR:
+								n = k + 1
+							case token.GEQ:
+								n = k
+							case token.NEQ:
+								if k == 0 {
+									n = 1
+								}
+							}
+						}
+					}
+					if n < 0 {
+						decided = false
+					} else if n < need {
+						need = n
+					}
+				}
+				if any && decided && need < 1<<30 && need > guarantee[id] {
+					guarantee[id] = need
+				}
+			}
+		}
 		// cases
 		cases := map[int64]branch{}
 		for _, br := range branchesInOne(ck) {
